@@ -41,7 +41,10 @@ def du(y=0, mo=0, d=0, h=0, mi=0, s=0):
 
 INTS = [1, 7, 24, 59, 60, 365, 1000000, 123456789012345, 999999999999999]
 DECS = [Fraction(3, 2), Fraction(1, 4), Fraction(1, 1000), Fraction(1, 10), Fraction(12345678, 1000),
-        Fraction(1, 10000), Fraction(999999999999999, 10000), Fraction(5, 8), Fraction(314159, 100000)]
+        Fraction(1, 10000), Fraction(999999999999999, 10000), Fraction(5, 8), Fraction(314159, 100000),
+        # below 1e-4 str(float) switches to exponent notation (PT5e-05S): outside the model's decimal
+        # printer (explicit Unmodelled) but the round trip must still hold on the implementation
+        Fraction(5, 100000), Fraction(1, 10 ** 7), Fraction(25, 10 ** 7), Fraction(99, 10 ** 6)]
 UNITS = ["y", "mo", "d", "h", "mi", "s"]
 
 
